@@ -2,7 +2,8 @@
   Property C14 — streaming KZG: the space-efficient (streaming) committer and prover return exactly
   what the time-efficient ones return, the verifier accepts the true evaluations and nothing else,
   and the folded-polynomial iterators enumerate the successive foldings.
-  Only property theorems live here; lemmas are in PCV/Proofs/StreamKZG.lean and PCV/Proofs/Fold.lean.
+  Only property theorems live here; lemmas are in PCV/Proofs/StreamKZG{,Multi,Verify}.lean and
+  PCV/Proofs/Fold{,Commit}.lean.
 
   Reading of the model: `SKZG.CK.new g g2 τ D m` is the key `CommitterKey::new(D, m, rng)` makes from
   its three draws; `CKS.ofTime ck` is `CommitterKeyStream::from(&ck)` (`Reverse` of the powers), a
@@ -10,6 +11,7 @@
   splits a sum into chunks.
 -/
 import PCV.Proofs.StreamKZGVerify
+import PCV.Proofs.FoldCommit
 import PCV.Props.Examples
 
 namespace PCV.C14
@@ -109,6 +111,7 @@ theorem space_open_multi_points_eq_time (ck : CK F) (p pts : List F) (hm : 1 ≤
       ∧ Time.openMultiPoints ck p pts = .ok r.2 :=
   SKZG.space_openMulti_proof_eq_time ck p pts hm hL
 
+omit [DecidableEq F] in
 /-- **The remainder the streaming prover returns** has one entry per point and, read as a
 big-endian polynomial, takes the value `p(a)` at every evaluation point `a` (it is `p mod Z`; the
 time-efficient prover returns no remainder). -/
@@ -149,6 +152,27 @@ theorem verify_multi_points_iff (g g2 τ : F) (D m : Nat) (ps : List (List F)) (
           - interpAt pts (ps.map (fun p => pts.map (evalPoly p))) η τ) = 0 :=
   SKZG.verifyMulti_new_iff g g2 τ D m ps pts claimed η π hps hlen hnd hm hD hcl hπ vk hvk
 
+/-- **A changed evaluation is rejected by `verify_multi_points`**: the value of polynomial `a` at
+point `b` shifted by `δ ≠ 0` (`SKZG.bumpAt`), non-trivial generators, batching challenge `η ≠ 0`
+and a trapdoor outside the point set (`τ ∈ pts` would make the Lagrange basis polynomial of another
+point vanish at `τ`): the honest batched proof is not accepted, with either verifier key. -/
+theorem wrong_multi_value_rejected (g g2 τ : F) (D m : Nat) (ps : List (List F)) (pts : List F)
+    (η π δ : F) (a b : Nat) (hps : ps ≠ []) (hlen : ∀ p ∈ ps, p.length ≤ D + 1) (hnd : pts.Nodup)
+    (hm : pts.length ≤ m) (hD : m ≤ D)
+    (hπ : Time.batchOpenMultiPoints (CK.new g g2 τ D m) ps pts η = .ok π) (vk : VK F)
+    (hvk : VK.ofTime (CK.new g g2 τ D m) = .ok vk
+      ∨ VK.ofSpace (CKS.ofTime (CK.new g g2 τ D m)) = .ok vk)
+    (ha : a < ps.length) (hb : b < pts.length) (hg : g ≠ 0) (hg2 : g2 ≠ 0) (hη : η ≠ 0)
+    (hδ : δ ≠ 0) (hτ : τ ∉ pts) :
+    verifyMultiPoints vk (Time.batchCommit (CK.new g g2 τ D m) ps) pts
+      (bumpAt (ps.map (fun p => pts.map (evalPoly p))) a b δ) π η = .ok false :=
+  SKZG.verifyMulti_new_reject g g2 τ D m ps pts η π δ a b hps hlen hnd hm hD hπ vk hvk ha hb hg hg2
+    hη hδ hτ
+
+example : bumpAt ([[19, 8, 34], [89, 69, 16]] : List (List K)) 1 1 1 = [[19, 8, 34], [89, 70, 16]] := by
+  decide
+example : (7 : K) ∉ ([2, 3, 10] : List K) ∧ (13 : K) ≠ 0 := by decide
+
 example : Space.openMultiPoints (CKS.ofTime (CK.new (3 : K) 5 7 8 3)) ([4, 9, 2, 77, 5] : List K).reverse
     [2, 3, 10] = .ok ([83, 79, 34], 56) := by decide
 -- (`decide +kernel`: the field inverse of `ZMod 101` is evaluated by the kernel)
@@ -165,5 +189,67 @@ example : verifyMultiPoints (⟨[3, 21, 46], [5, 35, 43, 99]⟩ : VK K) [98, 27]
 example : verifyMultiPoints (⟨[3, 21, 46], [5, 35, 43, 99]⟩ : VK K) [98, 27] [2, 3, 10]
     [[19, 8, 34], [89, 70, 16]] 65 13 = .ok false := by decide +kernel
 example : ([2, 3, 10] : List K).Nodup := by decide
+
+/-! ### folded-polynomial iterators -/
+
+open PCV.Fold
+
+omit [DecidableEq F] in
+/-- **`FoldedPolynomialTree` enumerates the successive foldings, for every length.**  For every
+coefficient vector `cs` (little-endian; the iterator reads `cs.reverse`), every challenge list and
+every level `1 ≤ i ≤ depth`: the items of level `i`, in the order the iterator yields them, are the
+coefficients of `fold (… (fold cs u₀) …) u_{i-1}`, highest degree first — whether or not the length
+is a multiple of `2^depth` (`init_stack` = zero padding). -/
+theorem folded_tree_enumerates_fold (chal cs : List F) (i : Nat) (h1 : 1 ≤ i)
+    (h2 : i ≤ chal.length) :
+    Tree.level (Tree.toList cs.reverse chal) i = (foldAll cs (chal.take i)).reverse :=
+  Fold.tree_level_eq_fold chal cs i h1 h2
+
+omit [DecidableEq F] in
+/-- … and the tree iterator yields nothing else: every item has a level in `1..depth` (so the base
+polynomial is skipped and `challenges[level]` is always in range). -/
+theorem folded_tree_levels_in_range (chal csBE : List F) :
+    ∀ item ∈ Tree.toList csBE chal, 1 ≤ item.1 ∧ item.1 ≤ chal.length :=
+  Fold.tree_items_levels chal csBE
+
+omit [DecidableEq F] in
+/-- **`FoldedPolynomialStream` enumerates the full folding, for every length** (depth 0: the
+stream itself). -/
+theorem folded_stream_enumerates_fold (chal cs : List F) :
+    Stream.toList cs.reverse chal = (foldAll cs chal).reverse :=
+  Fold.stream_eq_fold chal cs
+
+omit [DecidableEq F] in
+/-- **`commit_folding`** (the per-level skip `len(srs) − ⌈n/2ⁱ⌉` aligns level `i` with the SRS): the
+commitments are the time-efficient commitments of the explicitly folded polynomials, for every
+length, every depth and every key (any G1 list) at least as long as the input. -/
+theorem commit_folding_eq_time (ck : CK F) (cs chal : List F) (h : cs.length ≤ ck.powersOfG.length) :
+    commitFolding (CKS.ofTime ck) cs.reverse chal = .ok ((foldings cs chal).map (Time.commit ck)) :=
+  Fold.commitFolding_eq ck cs chal h
+
+/-- **`open_folding`**: there are per-level results `R[j]` = what the streaming `open_multi_points`
+returns on the `(j+1)`-fold folding (whose proof component is the time-efficient
+`open_multi_points` proof) such that `open_folding` returns their remainders and the single proof
+`Σⱼ etas[j]·R[j].proof`. -/
+theorem open_folding_consistent (ck : CK F) (cs chal pts etas : List F) (hm : 1 ≤ pts.length)
+    (hL : cs.length ≤ ck.powersOfG.length) (he : chal.length ≤ etas.length) :
+    ∃ R : List (List F × F), R.length = chal.length ∧
+      (∀ j (hj : j < R.length),
+        Space.openMultiPoints (CKS.ofTime ck) (foldAll cs (chal.take (j + 1))).reverse pts = .ok R[j]
+        ∧ Time.openMultiPoints ck (foldAll cs (chal.take (j + 1))) pts = .ok R[j].2) ∧
+      openFolding (CKS.ofTime ck) cs.reverse chal pts etas
+        = .ok (R.map (·.1),
+            lsum ((List.range chal.length).map (fun j => etas.getD j 0 * (R.getD j ([], 0)).2))) :=
+  Fold.openFolding_consistent ck cs chal pts etas hm hL he
+
+example : Tree.toList ([1, 2, 3, 4, 5, 6, 7] : List K).reverse [2, 3]
+    = [(1, 7), (1, 17), (2, 38), (1, 11), (1, 5), (2, 38)] := by decide
+example : foldings ([1, 2, 3, 4, 5, 6, 7] : List K) [2, 3] = [[5, 11, 17, 7], [38, 38]] := by decide
+example : Stream.toList ([1, 2, 3, 4, 5, 6, 7] : List K).reverse [2, 3] = [38, 38] := by decide
+example : (initStack 5 3 : List (Nat × K)) = [(0, 0), (1, 0)] := by decide
+example : commitFolding (CKS.ofTime (CK.new (3 : K) 5 7 8 3)) ([1, 2, 3, 4, 5, 6, 7] : List K).reverse [2, 3]
+    = .ok [50, 3] := by decide
+example : openFolding (CKS.ofTime (CK.new (3 : K) 5 7 8 3)) ([1, 2, 3, 4, 5, 6, 7] : List K).reverse [2, 3]
+    [2, 3, 10] [1, 13] = .ok ([[21, 23, 21], [0, 38, 38]], 21) := by decide
 
 end PCV.C14
